@@ -558,6 +558,17 @@ def run_ans(case):
             check("C07", ok, "ans/seek_beyond_data_accepted", "seek(%d, ..) accepted with %d bulk words" % (n + 1 + op[1], n))
             got = coder.get_compressed().tolist()
             check("C07", got == before, "ans/refused_seek_changed_coder", lambda: "export %s -> %s" % (hexw(before), hexw(got)))
+        elif k == "mis":
+            _, g, j, delta = op
+            G = groups[g]
+            rows = [j] * 3
+            syms = [G.sym(j, 40 * i) for i in range(3 + delta)]
+            before = ref.export()
+            ok = expect_error(lambda: coder.encode_reverse(i32(syms), G.fam, *G.fam_params(rows)))
+            label("ans:mismatched_lengths")
+            check("C01", ok, "ans/mismatched_lengths_accepted", lambda: "encode_reverse(%d symbols, family, %d parameter rows) returned normally" % (len(syms), len(rows)))
+            got = coder.get_compressed().tolist()
+            check("C09", got == before, "ans/refused_call_changed_coder", lambda: "refused encode_reverse with mismatched lengths: %s -> %s" % (hexw(before), hexw(got)))
         elif k == "bad":
             _, g, j, which, form = op
             G = groups[g]
@@ -695,6 +706,18 @@ def run_range(case):
             msg.clear()
             snaps.clear()
             label("range:clear")
+        elif k == "mis":
+            # the family form with more or fewer symbols than parameter rows: refused, nothing encoded
+            _, g, j, delta = op
+            G = groups[g]
+            rows = [j] * 3
+            syms = [G.sym(j, 40 * i) for i in range(3 + delta)]
+            before = enc.get_compressed().tolist()
+            ok = expect_error(lambda: enc.encode(i32(syms), G.fam, *G.fam_params(rows)))
+            label("range:mismatched_lengths")
+            check("C02", ok, "range/mismatched_lengths_accepted", lambda: "encode(%d symbols, family, %d parameter rows) returned normally" % (len(syms), len(rows)))
+            after = enc.get_compressed().tolist()
+            check("C09", before == after, "range/refused_call_changed_encoder", lambda: "refused encode with mismatched lengths: %s -> %s" % (hexw(before), hexw(after)))
         elif k == "bad":
             _, g, j, which, form = op
             G = groups[g]
@@ -1183,7 +1206,7 @@ def ans_case(draw):
         init = {"words": ws, "seal": False}
     nops = draw(st.integers(1, 24))
     ops = []
-    kinds = ["d1", "d1", "di", "df", "insp"] if bitsback else ["e1", "e1", "ei", "ef", "d1", "d1", "di", "df", "reload", "clone", "insp", "snap", "seek", "badseek", "bad"]
+    kinds = ["d1", "d1", "di", "df", "insp"] if bitsback else ["e1", "e1", "ei", "ef", "d1", "d1", "di", "df", "reload", "clone", "insp", "snap", "seek", "badseek", "bad", "mis"]
     for _ in range(nops):
         k = draw(st.sampled_from(kinds))
         g, j = gj(draw, gs)
@@ -1203,6 +1226,8 @@ def ans_case(draw):
             ops.append([k, draw(small)])
         elif k == "bad":
             ops.append([k, g, j, draw(st.integers(0, 5)), draw(st.integers(0, 3))])
+        elif k == "mis":
+            ops.append([k, g, j, draw(st.sampled_from([-2, -1, 1, 2]))])
         else:
             ops.append([k])
     return {"prop": PROP, "views": draw(views_s), "kind": "ans", "groups": gs, "init": init, "ops": ops, "finish": "reencode" if bitsback else draw(st.sampled_from(["pop_all", "pop_all", "none"])),
@@ -1214,7 +1239,7 @@ def range_case(draw):
     gs = draw(groups_s())
     nops = draw(st.integers(0, 24))
     ops = []
-    kinds = ["e1", "e1", "e1", "ei", "ef", "insp", "snap", "snap", "bad"] + (["clear"] if draw(st.integers(0, 5)) == 0 else [])
+    kinds = ["e1", "e1", "e1", "ei", "ef", "insp", "snap", "snap", "bad", "mis"] + (["clear"] if draw(st.integers(0, 5)) == 0 else [])
     for _ in range(nops):
         k = draw(st.sampled_from(kinds))
         g, j = gj(draw, gs)
@@ -1228,6 +1253,8 @@ def range_case(draw):
             ops.append([k, draw(small)])
         elif k == "bad":
             ops.append([k, g, j, draw(st.integers(0, 5)), draw(st.integers(0, 3))])
+        elif k == "mis":
+            ops.append([k, g, j, draw(st.sampled_from([-2, -1, 1, 2]))])
         else:
             ops.append([k])
     return {"prop": PROP, "views": draw(views_s), "kind": "range", "groups": gs, "ops": ops, "dec": draw(st.integers(0, 1)), "tail": [],
